@@ -740,7 +740,12 @@ def make_shim() -> types.ModuleType:
     return shim
 
 
+# classes DEFINED as subclasses of the real threading.Thread at import time: the name swap cannot reach their base
+# class, so it is swapped (and restored) explicitly
+DEFAULT_REBASE: tuple[tuple[str, str], ...] = (("easynetwork.servers.threads_helper", "NetworkServerThread"),)
+
 _SAVED: list[tuple[Any, str, Any]] = []
+_SAVED_BASES: list[tuple[type, tuple]] = []
 
 
 def install(shim: types.ModuleType | None = None, modules: tuple[tuple[str, str], ...] = DEFAULT_MODULES) -> types.ModuleType:
@@ -752,6 +757,11 @@ def install(shim: types.ModuleType | None = None, modules: tuple[tuple[str, str]
             mod = importlib.import_module(modname)
             _SAVED.append((mod, attr, getattr(mod, attr)))
             setattr(mod, attr, shim)
+        for modname, clsname in DEFAULT_REBASE:
+            cls = getattr(importlib.import_module(modname), clsname)
+            if _real_threading.Thread in cls.__bases__:
+                _SAVED_BASES.append((cls, cls.__bases__))
+                cls.__bases__ = tuple(CThread if b is _real_threading.Thread else b for b in cls.__bases__)
     except BaseException:
         uninstall()
         raise
@@ -759,6 +769,9 @@ def install(shim: types.ModuleType | None = None, modules: tuple[tuple[str, str]
 
 
 def uninstall() -> None:
+    while _SAVED_BASES:
+        cls, bases = _SAVED_BASES.pop()
+        cls.__bases__ = bases
     while _SAVED:
         mod, attr, old = _SAVED.pop()
         setattr(mod, attr, old)
